@@ -567,6 +567,25 @@ func (rn *vRunner) fire(ev vEvent) {
 	}
 }
 
+func (rn *vRunner) reassertReleases() {
+	m := rn.m
+	if rn.disp == nil || m.isDead(rn.gen) {
+		return
+	}
+	inner := rn.disp.pool.(*vPool).pool
+	for _, v := range inner.Instances() {
+		if v.IdleBehavior != worker.IdleBehaviorHold {
+			continue
+		}
+		m.mu.Lock()
+		want, ok := m.intended[v.Instance]
+		m.mu.Unlock()
+		if ok && want != worker.IdleBehaviorHold {
+			m.setIdleBehavior(inner, rn.gen, v.Instance, want)
+		}
+	}
+}
+
 func (rn *vRunner) releaseHolds() {
 	m := rn.m
 	m.mu.Lock()
@@ -645,6 +664,7 @@ func (rn *vRunner) run(lim vLimits) *vResult {
 	lastChange := time.Now()
 	lastFault := time.Now()
 	holdsReleased := false
+	tick := 0
 	var last vObs
 	liveness := sc.Mode == "c15"
 
@@ -722,6 +742,14 @@ func (rn *vRunner) run(lim vLimits) *vResult {
 			break
 		}
 
+		// The operator notices an instance that is (still or again) on hold
+		// although the hold was released: idle behaviour is persisted in
+		// instance tags, tag writes are asynchronous and unordered (pool:
+		// `go instance.SetTags()`, stub: applied in another goroutine), so a
+		// restarted dispatcher can read a stale "hold".
+		if tick++; tick%50 == 0 {
+			rn.reassertReleases()
+		}
 		workDone := o.final+o.held == len(sc.Containers)
 		if workDone && !holdsReleased {
 			// the operator releases held instances once the work is done
